@@ -25,7 +25,10 @@ package proxy
 
 import (
 	"context"
+	"encoding/json"
 	"fmt"
+	"os"
+	"path/filepath"
 	"runtime/debug"
 	"sort"
 	"strings"
@@ -379,6 +382,10 @@ func (x *c16Exec) fail(key, format string, a ...any) {
 }
 
 func (x *c16Exec) inconclusive(why string) {
+	// keep the scenario and the observed state for diagnosis (never a verdict)
+	if b, err := json.Marshal(map[string]any{"why": why, "case": x.c, "state": x.describe(), "stacks": c15Stacks("go.minekube.com/gate/pkg/edition/java", nil)}); err == nil {
+		_ = os.WriteFile(filepath.Join(verifkit.WorkDir(), fmt.Sprintf("inconclusive-C16-%d-%d.json", os.Getpid(), x.reqN)), b, 0o644)
+	}
 	panic(c16Stop{verifkit.Result{Inconclusive: true, Labels: []string{why}}})
 }
 
